@@ -333,6 +333,27 @@ func oracleC12(c *XCase) (fail *ev.Failure, st struct {
 					return ev.Failf(sig("range-misses-extension-the-runtime-reports"), "step %d: the owning runtime's enumeration reports extension %d, RangeExtensions visited %v", i, n, keys(seen)), st
 				}
 			}
+		case "has-undeclared", "clear-undeclared":
+			// a hand-built, UNREGISTERED descriptor for the undeclared number the message was decoded with (gogo /
+			// golang accept such descriptors: late-bound extensions); csproto must do what the runtime does on the twin
+			ud := undeclaredDesc(mt, c.Undeclared)
+			if ud == nil {
+				continue
+			}
+			if op.Kind == "has-undeclared" {
+				if got, want := csproto.HasExtension(live, ud), xr.has(twin, ud); got != want {
+					return ev.Failf(sig("has-differs-for-late-bound-descriptor"), "step %d: HasExtension(undeclared %d) = %v, the owning runtime says %v", i, c.Undeclared, got, want), st
+				}
+			} else {
+				csproto.ClearExtension(live, ud)
+				xr.clear(twin, ud)
+				if got, want := csproto.HasExtension(live, ud), xr.has(twin, ud); got != want {
+					return ev.Failf(sig("clear-differs-for-late-bound-descriptor"), "step %d: after ClearExtension(undeclared %d) HasExtension = %v, the owning runtime says %v", i, c.Undeclared, got, want), st
+				}
+				if a, b := wireNumbersOf(mt.Info.Runtime, live), wireNumbersOf(mt.Info.Runtime, twin); a[int(c.Undeclared)] != b[int(c.Undeclared)] {
+					return ev.Failf(sig("clear-differs-for-late-bound-descriptor"), "step %d: after ClearExtension(undeclared %d) the field occurs %d time(s) in the marshaled bytes, %d time(s) for the twin cleared by the owning runtime", i, c.Undeclared, a[int(c.Undeclared)], b[int(c.Undeclared)]), st
+				}
+			}
 		case "set-foreign", "has-foreign", "get-foreign":
 			fd := foreignDesc(mt, op.Ext)
 			if fd == nil {
@@ -414,9 +435,9 @@ func extTypes() []*MsgType {
 	return out
 }
 
-var c12Kinds = []string{"set", "set", "set", "get", "has", "clear", "clear", "clearall", "range", "range", "marshal", "number", "set-foreign", "has-foreign", "get-foreign"}
+var c12Kinds = []string{"set", "set", "set", "get", "has", "clear", "clear", "clearall", "range", "range", "marshal", "number", "set-foreign", "has-foreign", "get-foreign", "has-undeclared", "clear-undeclared"}
 
-const ruleC12 = "case = a proto2 message type with extensions (one file per extension kind: 15 scalars, enum, message; plus file-scope / nested-scope / multiple extensions / extensions with defaults), 2 in 3 starting with its regular fields populated, 1 in 4 decoded by its runtime from bytes that carry an undeclared field inside the extension range, of gogo / Google v1 (legacy) / Google v2, plain and fast-marshal, + a program of <= 30 ops over {Set, Get, Has, Clear, ClearAll, Range, Marshal, ExtensionFieldNumber, and Set/Has/Get with the descriptor of ANOTHER runtime}; model map[number]value AND a twin message driven through the owning runtime's own extension API with the same ops: after each step Has/Get agree with both, after Clear/ClearAll/Marshal the extension's number is on the wire iff it is set, Range visits exactly the set numbers and exactly what the owning runtime's own enumeration reports on the twin, a foreign descriptor yields false / an error and leaves the message equal to its twin; non-trivial = a program with >= 1 Set followed later by Clear / ClearAll / Range; distinct by program"
+const ruleC12 = "case = a proto2 message type with extensions (one file per extension kind: 15 scalars, enum, message; plus file-scope / nested-scope / multiple extensions / extensions with defaults), 2 in 3 starting with its regular fields populated, 1 in 4 decoded by its runtime from bytes that carry an undeclared field inside the extension range, of gogo / Google v1 (legacy) / Google v2, plain and fast-marshal, + a program of <= 30 ops over {Set, Get, Has, Clear, ClearAll, Range, Marshal, ExtensionFieldNumber, and Set/Has/Get with the descriptor of ANOTHER runtime, Has/Clear with a hand-built unregistered descriptor for an undeclared number the message was decoded with (gogo / golang)}; model map[number]value AND a twin message driven through the owning runtime's own extension API with the same ops: after each step Has/Get agree with both, after Clear/ClearAll/Marshal the extension's number is on the wire iff it is set, Range visits exactly the set numbers and exactly what the owning runtime's own enumeration reports on the twin, a foreign descriptor yields false / an error and leaves the message equal to its twin; non-trivial = a program with >= 1 Set followed later by Clear / ClearAll / Range; distinct by program"
 
 func TestC12(t *testing.T) {
 	rec := ev.New("C12", ruleC12)
@@ -475,6 +496,21 @@ func TestC12(t *testing.T) {
 		}
 		rec.Check(rt, "xcase", c, f)
 	})
+}
+
+// undeclaredDesc builds an unregistered descriptor (int64, varint) for number n of mt - gogo and legacy runtimes only.
+func undeclaredDesc(mt *MsgType, n int32) any {
+	if n <= 0 {
+		return nil
+	}
+	tag := fmt.Sprintf("varint,%d,opt,name=late_bound", n)
+	switch mt.Info.Runtime {
+	case "gogo":
+		return &gogo.ExtensionDesc{ExtendedType: mt.New().(gogo.Message), ExtensionType: (*int64)(nil), Field: n, Name: "vf.late_bound", Tag: tag}
+	case "legacy":
+		return &golang.ExtensionDesc{ExtendedType: mt.New().(golang.Message), ExtensionType: (*int64)(nil), Field: n, Name: "vf.late_bound", Tag: tag}
+	}
+	return nil
 }
 
 // undeclaredExtNumber: a number inside an extension range of mt that no extension of the corpus declares.
